@@ -606,3 +606,37 @@ Theorem C06_pgbp_search_field_in_bounds :
   forall buf, bytes_ok buf -> forall f rd id lim, inb buf rd -> sres_fwd buf rd (search_field_id f buf rd id lim).
 Proof. intros. apply search_field_id_inb; assumption. Qed.
 Print Assumptions C06_pgbp_search_field_in_bounds.
+
+(* ================================================================== (G) skipping primitives from the Go source *)
+(* the cursor machines of Robust.v against the definitions go2coq generates from thrift/binary_skip.go (gen/Gen_thrift.v) and
+   proto/binary/binary_skip.go (gen/Gen_protoskip.v) on every build *)
+From DG Require GoSem Gen_thrift Gen_protoskip Check20h GenProtoskipProofs GenThriftskipProofs.
+
+(* skipn_m / skipstr_m ARE skipn / skipstr of the source: same outcome class and same cursor, for every buffer and cursor *)
+Theorem C06_thrift_skip_prims_from_source :
+  (forall buf n s, GenProtoskipProofs.in_buf buf (cur s) -> 0 <= n < 2 ^ 62 ->
+     GenThriftskipProofs.out_obs (skipn_m buf n s) = Some (fst (Check20h.tskip_gen 0 buf (cur s) n))) /\
+  (forall buf s, bytes_ok buf -> GenProtoskipProofs.in_buf buf (cur s) ->
+     GenThriftskipProofs.out_obs (skipstr_m buf s) = Some (fst (Check20h.tskip_gen 1 buf (cur s) 0))).
+Proof. split; [exact GenThriftskipProofs.skipn_is_skipn_m | exact GenThriftskipProofs.skipstr_is_skipstr_m]. Qed.
+Print Assumptions C06_thrift_skip_prims_from_source.
+
+(* proto/binary Skip from the source survives arbitrary bytes: for EVERY byte string, cursor inside it and wire type it never reaches a
+   panic (next() is never handed a size <= 0), leaves the buffer alone and keeps the cursor inside the buffer *)
+Theorem C06_proto_Skip_source_never_panics :
+  forall buf rd wt u, bytes_ok buf -> GenProtoskipProofs.in_buf buf rd ->
+  let '(e, b', rd') := Gen_protoskip.BinaryProtocol_Skip buf rd wt u in e <> GoSem.Err_PANIC /\ b' = buf /\ rd <= rd' <= GoSem.blen buf.
+Proof. exact GenProtoskipProofs.Skip_never_panics. Qed.
+Print Assumptions C06_proto_Skip_source_never_panics.
+
+(* the fixed-size fast paths of SkipGo (gen/Gen_thriftskipfast.v: the bodies of `if typeSize[vt] > 0` and `if ksz > 0 && vsz > 0`,
+   regenerated from the Go text on every build): ONE skipn of the exact product count x width - no 32-bit wrap for any count < 2^31 *)
+From DG Require Gen_thriftskipfast.
+Theorem C06_SkipGo_fast_paths_from_source :
+  (forall vt sz, 0 <= vt < 256 -> 0 <= sz < 2 ^ 31 ->
+     Gen_thriftskipfast.SkipGo_list_fast vt sz = (Gen_thriftskipfast.Out_return, [(Gen_thriftskipfast.Eff_skipn, [sz * fixed_size vt])])) /\
+  (forall kt vt sz, 0 <= kt < 256 -> 0 <= vt < 256 -> 0 <= sz < 2 ^ 31 ->
+     Gen_thriftskipfast.SkipGo_map_fast sz (Gen_thriftskipfast.typeSize kt) (Gen_thriftskipfast.typeSize vt)
+       = (Gen_thriftskipfast.Out_return, [(Gen_thriftskipfast.Eff_skipn, [sz * (fixed_size kt + fixed_size vt)])])).
+Proof. exact GenThriftskipProofs.SkipGo_fast_paths_exact. Qed.
+Print Assumptions C06_SkipGo_fast_paths_from_source.
